@@ -98,13 +98,19 @@ def patterns(t):
     out = lambda x: tp.WildCardType(x, tp.Covariant)       # noqa: E731
     inn = lambda x: tp.WildCardType(x, tp.Contravariant)   # noqa: E731
     return [
-        ('X', X), ('XA', XA), ('G<X>', G.new([X])), ('G<XA>', G.new([XA])), ('G<out X>', G.new([out(X)])),
+        ('X', X), ('XA', XA), ('XB', tp.TypeParameter('XB', bound=t['B'])), ('G<X>', G.new([X])), ('G<XA>', G.new([XA])), ('G<out X>', G.new([out(X)])),
         ('G<in X>', G.new([inn(X)])), ('G<G<X>>', G.new([G.new([X])])), ('P2<X,X>', P2.new([X, X])),
         ('P2<X,Y>', P2.new([X, Y])), ('P2<X,G<X>>', P2.new([X, G.new([X])])), ('P2<XA,X>', P2.new([XA, X])),
         ('P2<X,XG>', P2.new([X, XG])), ('G<out XA>', G.new([out(XA)])), ('P2<A,X>', P2.new([A, X])),
         ('P2<out X,in Y>', P2.new([out(X), inn(Y)])), ('H<X>', H.new([X])), ('G<H<X>>', G.new([H.new([X])])),
         ('P2<G<out X>,Y>', P2.new([G.new([out(X)]), Y])),
     ]
+
+
+def var_targets(t):
+    """type variables as targets (a generic method unified against another generic signature)"""
+    return [tp.TypeParameter('T0'), tp.TypeParameter('TA', bound=t['A']), tp.TypeParameter('TB', bound=t['B']),
+            tp.TypeParameter('TG', bound=t['G'].new([t['A']]))]
 
 
 def targets(t, depth):
@@ -160,7 +166,7 @@ def h_pairs(eng, depth, same_type):
     for v in t.values():
         w.snap(v)
     pterm = w.snap(pattern)
-    tgts = targets(t, depth)
+    tgts = targets(t, depth) + var_targets(t)
     nonempty = 0
     bad = None
     for tg in tgts:
@@ -231,12 +237,12 @@ def jobs(tier):
                require_events=['bounded:nonempty', 'bounded:empty'],
                bounds='G<k a> vs G<k X : b>, a <= b a solver atom under the induction hypothesis', outside=OUT)]
     for same in (True, False):
-        d = 1 if tier == 'quick' else 2
+        d = 2
         out.append(Job('pairs-depth%d-%s' % (d, 'same' if same else 'super'), h_pairs, dict(depth=d, same_type=same),
                        split_depth=1, functions=FUNCS, require_events=['pairs', 'nonempty'], budget_s=1800,
                        crosscheck_every=3,
-                       bounds='18 patterns (<=3 variables, bounded by a class / by G<X>, repeated, projected, nested) x all '
-                              'ground targets of depth <= %d over the table; same_type=%s' % (d, same), outside=OUT))
+                       bounds='19 patterns (<=3 variables, bounded by a class / by G<X>, repeated, projected, nested) x all '
+                              'ground targets of depth <= %d over the table plus 4 type-variable targets; same_type=%s' % (d, same), outside=OUT))
     return out
 
 
